@@ -53,6 +53,24 @@ type ClosureVal struct {
 
 type OpaqueVal struct{ Desc string }
 
+// ValStructRef: a struct of a repository type held BY VALUE in a local variable (x := T{...}); modelled as a fresh heap
+// object. Only x.f, x.f = v and &x are in the subset; copying the value (y := x, f(x), return x) is not.
+type ValStructRef struct {
+	Ref Term
+	T   *types.Named
+}
+
+// RecVal: a value of a local (anonymous or non-repository) struct type; ListVal: a concrete list of such values or of
+// other non-term values (composite literals of slices/arrays of structs). IfaceVal: an interface value with its dynamic type.
+type RecVal struct {
+	Fields map[string]Value
+}
+type ListVal struct{ Elems []Value }
+type IfaceVal struct {
+	V   Value
+	Dyn types.Type
+}
+
 type PV struct {
 	P *Path
 	V Value
@@ -169,13 +187,14 @@ type Path struct {
 	Facts     map[string]Term            // atoms assumed on this path (folding)
 	Ghosts    map[string]Value           // call-site ghosts: results of designated calls
 	GhostHeap map[string]map[string]Term // heap right after the designated call returned (for atreturn(g, e))
+	Brk, Cont bool                       // an unlabelled break / continue is pending: the enclosing loop (or switch, for break) consumes it
 	CutSeen   map[string]bool
 }
 
 func (p *Path) clone() *Path {
 	q := &Path{C: p.C, Conds: append([]Term(nil), p.Conds...), Vars: make(map[types.Object]Value, len(p.Vars)), Heap: make(map[string]Term, len(p.Heap)),
 		CallOrd: make(map[string]int, len(p.CallOrd)), Trace: append([]string(nil), p.Trace...), Depth: p.Depth,
-		Facts: make(map[string]Term, len(p.Facts)), CutSeen: make(map[string]bool, len(p.CutSeen))}
+		Facts: make(map[string]Term, len(p.Facts)), CutSeen: make(map[string]bool, len(p.CutSeen)), Brk: p.Brk, Cont: p.Cont}
 	for k, v := range p.Facts {
 		q.Facts[k] = v
 	}
@@ -547,6 +566,9 @@ func (fr *frame) evalExprs(p *Path, es []ast.Expr) [][]interface{} {
 }
 
 func asTerm(v Value) (Term, bool) {
+	if iv, ok := v.(*IfaceVal); ok { // an interface value is the value it holds
+		return asTerm(iv.V)
+	}
 	t, ok := v.(Term)
 	return t, ok
 }
@@ -679,6 +701,9 @@ func (fr *frame) fieldHop(p *Path, base Value, baseT types.Type, f *types.Var, p
 		st, _ = baseT.(*types.Named)
 	}
 	ref, ok := asTerm(base)
+	if vs, isVS := base.(ValStructRef); isVS {
+		ref, ok = vs.Ref, true
+	}
 	if st == nil || !ok {
 		c.untranslatable(pos, "field access on unmodelled value")
 		return OpaqueVal{"field"}, f.Type()
@@ -715,6 +740,12 @@ func (fr *frame) evalSelector(p *Path, e *ast.SelectorExpr) []PV {
 		}
 		var out []PV
 		for _, pv := range fr.eval(p, e.X) {
+			if rv, ok := pv.V.(*RecVal); ok {
+				if fv, ok := rv.Fields[e.Sel.Name]; ok {
+					out = append(out, PV{pv.P, fv})
+					continue
+				}
+			}
 			v, t := fr.walkFieldPath(pv.P, pv.V, sel.Recv(), sel.Index(), e.Pos())
 			_ = t
 			out = append(out, PV{pv.P, v})
@@ -765,6 +796,24 @@ func (fr *frame) evalUnary(p *Path, e *ast.UnaryExpr) []PV {
 				if b, ok := p.Vars[obj].(*BuilderVal); ok {
 					return one(p, b)
 				}
+				if vs, ok := p.Vars[obj].(ValStructRef); ok {
+					return one(p, vs.Ref) // the variable's own storage
+				}
+			}
+		}
+		// &list[i] for a concrete local list of records: the element itself (records are only read through such pointers;
+		// a write through one is rejected in assignTo)
+		if ix, ok := ast.Unparen(e.X).(*ast.IndexExpr); ok {
+			var out []PV
+			okAll := true
+			for _, pv := range fr.evalIndex(p, ix, false) {
+				if _, isRec := pv.V.(*RecVal); !isRec {
+					okAll = false
+				}
+				out = append(out, pv)
+			}
+			if okAll && len(out) > 0 {
+				return out
 			}
 		}
 		c.untranslatable(e.Pos(), "address-of")
@@ -1045,6 +1094,15 @@ func (fr *frame) evalIndex(p *Path, e *ast.IndexExpr, commaOk bool) []PV {
 				}
 				q.safety("index", tAnd(tIntCmp(">=", it, mkInt(0)), tIntCmp("<", it, x.Len)), e.Pos())
 				out = append(out, PV{q, x.at(c, it)})
+			case *ListVal:
+				it, ok := asTerm(iv.V)
+				n, isC := it.C.(int64)
+				if !ok || !isC || n < 0 || int(n) >= len(x.Elems) {
+					c.untranslatable(e.Pos(), "index into a local list that is not concrete")
+					out = append(out, PV{q, OpaqueVal{"idx"}})
+					continue
+				}
+				out = append(out, PV{q, x.Elems[n]})
 			case *VariadicVal:
 				it, ok := asTerm(iv.V)
 				n, isC := it.C.(int64)
@@ -1268,7 +1326,7 @@ func (fr *frame) evalCompositeLit(p *Path, e *ast.CompositeLit, addr bool) []PV 
 		if named == nil {
 			break
 		}
-		if !addr && !(named.Obj().Pkg() != nil && (named.Obj().Pkg().Path() == "strings" && named.Obj().Name() == "Builder" || named.Obj().Pkg().Path() == "bytes" && named.Obj().Name() == "Buffer")) {
+		if !addr && named.Obj().Pkg() == nil {
 			break
 		}
 		if named.Obj().Pkg() != nil && (named.Obj().Pkg().Path() == "strings" && named.Obj().Name() == "Builder" || named.Obj().Pkg().Path() == "bytes" && named.Obj().Name() == "Buffer") {
@@ -1278,6 +1336,7 @@ func (fr *frame) evalCompositeLit(p *Path, e *ast.CompositeLit, addr bool) []PV 
 		if _, ok := pkgAlias[named.Obj().Pkg().Path()]; !ok {
 			break
 		}
+		byValue := !addr
 		// evaluate field initialisers in source order
 		type fv struct {
 			f *types.Var
@@ -1334,9 +1393,17 @@ func (fr *frame) evalCompositeLit(p *Path, e *ast.CompositeLit, addr bool) []PV 
 				}
 				q.writeField(fieldKey(named, in.f), srt, r, vt)
 			}
-			out = append(out, PV{q, r})
+			if byValue {
+				out = append(out, PV{q, ValStructRef{Ref: r, T: named}})
+			} else {
+				out = append(out, PV{q, r})
+			}
 		}
 		return out
+	}
+	// local record / list literals: []struct{...}{{...}, ...}, [...]struct{...}{...}, struct{...}{...}
+	if lv, ok := fr.evalLocalLiteral(p, e, t); ok {
+		return lv
 	}
 	c.untranslatable(e.Pos(), "composite literal of type "+t.String())
 	return one(p, OpaqueVal{"complit"})
@@ -1362,6 +1429,10 @@ func (fr *frame) execBlock(ps []*Path, stmts []ast.Stmt) []*Path {
 		var next []*Path
 		for _, p := range ps {
 			if p.Dead {
+				continue
+			}
+			if p.Brk || p.Cont {
+				next = append(next, p)
 				continue
 			}
 			next = append(next, fr.execStmt(p, s)...)
@@ -1531,7 +1602,18 @@ func (fr *frame) execStmt(p *Path, s ast.Stmt) []*Path {
 		return fr.execRange(p, s)
 	case *ast.ForStmt:
 		return fr.execFor(p, s)
-	case *ast.IncDecStmt, *ast.GoStmt, *ast.DeferStmt, *ast.SelectStmt, *ast.SendStmt, *ast.LabeledStmt, *ast.BranchStmt, *ast.TypeSwitchStmt:
+	case *ast.BranchStmt:
+		if s.Label == nil && s.Tok == token.BREAK {
+			p.Brk = true
+			return []*Path{p}
+		}
+		if s.Label == nil && s.Tok == token.CONTINUE {
+			p.Cont = true
+			return []*Path{p}
+		}
+		c.untranslatable(s.Pos(), "labelled branch / goto")
+		return []*Path{p}
+	case *ast.IncDecStmt, *ast.GoStmt, *ast.DeferStmt, *ast.SelectStmt, *ast.SendStmt, *ast.LabeledStmt, *ast.TypeSwitchStmt:
 		c.untranslatable(s.Pos(), fmt.Sprintf("statement %T", s))
 		return []*Path{p}
 	case *ast.EmptyStmt:
@@ -1604,9 +1686,9 @@ func (fr *frame) execAssign(p *Path, s *ast.AssignStmt) []*Path {
 	}
 	define := s.Tok == token.DEFINE
 	// v, ok := m[k]
-	if len(s.Lhs) == 2 && len(s.Rhs) == 1 {
+	if len(s.Lhs) >= 2 && len(s.Rhs) == 1 {
 		var pvs []PV
-		if ix, ok := s.Rhs[0].(*ast.IndexExpr); ok {
+		if ix, ok := s.Rhs[0].(*ast.IndexExpr); ok && len(s.Lhs) == 2 {
 			pvs = fr.evalIndex(p, ix, true)
 		} else {
 			pvs = fr.eval(p, s.Rhs[0])
@@ -1614,15 +1696,20 @@ func (fr *frame) execAssign(p *Path, s *ast.AssignStmt) []*Path {
 		var out []*Path
 		for _, pv := range pvs {
 			tv, ok := pv.V.(*TupleVal)
-			if !ok || len(tv.Vs) != 2 {
-				c.untranslatable(s.Pos(), "2-value assignment from non-tuple")
+			if !ok || len(tv.Vs) != len(s.Lhs) {
+				c.untranslatable(s.Pos(), "multi-value assignment from non-tuple")
 				out = append(out, pv.P)
 				continue
 			}
-			qs := fr.assignTo(pv.P, s.Lhs[0], tv.Vs[0], define)
-			for _, q := range qs {
-				out = append(out, fr.assignTo(q, s.Lhs[1], tv.Vs[1], define)...)
+			qs := []*Path{pv.P}
+			for i, lhs := range s.Lhs {
+				var next []*Path
+				for _, q := range qs {
+					next = append(next, fr.assignTo(q, lhs, tv.Vs[i], define)...)
+				}
+				qs = next
 			}
+			out = append(out, qs...)
 		}
 		return out
 	}
@@ -1635,6 +1722,13 @@ func (fr *frame) execAssign(p *Path, s *ast.AssignStmt) []*Path {
 		qs := []*Path{a[0].(*Path)}
 		vals := a[1].([]Value)
 		for i, lhs := range s.Lhs {
+			if _, isVS := vals[i].(ValStructRef); isVS {
+				if _, isLit := ast.Unparen(s.Rhs[i]).(*ast.CompositeLit); !isLit {
+					// y := x / y = x for a struct held by value copies it; the model would alias the two
+					c.untranslatable(s.Pos(), "copy of a struct value")
+					vals[i] = OpaqueVal{"structcopy"}
+				}
+			}
 			var next []*Path
 			for _, q := range qs {
 				next = append(next, fr.assignTo(q, lhs, vals[i], define)...)
@@ -1672,6 +1766,29 @@ func (fr *frame) assignTo(p *Path, lhs ast.Expr, v Value, define bool) []*Path {
 		p.Vars[vo] = v
 		return []*Path{p}
 	case *ast.SelectorExpr:
+		if rv, ok := func() (*RecVal, bool) {
+			if id, ok := l.X.(*ast.Ident); ok {
+				if o, ok := fr.info.Uses[id].(*types.Var); ok {
+					r, ok := p.Vars[o].(*RecVal)
+					if _, isPtr := o.Type().Underlying().(*types.Pointer); ok && isPtr {
+						c.untranslatable(l.Pos(), "write through a pointer to a local record")
+						return nil, false
+					}
+					return r, ok
+				}
+			}
+			return nil, false
+		}(); ok {
+			// field of a local record variable: records are values, the variable gets an updated copy
+			nr := &RecVal{Fields: map[string]Value{}}
+			for k, fv := range rv.Fields {
+				nr.Fields[k] = fv
+			}
+			nr.Fields[l.Sel.Name] = v
+			id := l.X.(*ast.Ident)
+			p.Vars[fr.info.Uses[id].(*types.Var)] = nr
+			return []*Path{p}
+		}
 		sel, ok := fr.info.Selections[l]
 		if !ok || sel.Kind() != types.FieldVal {
 			c.untranslatable(l.Pos(), "assignment to selector")
@@ -1689,6 +1806,11 @@ func (fr *frame) assignTo(p *Path, lhs ast.Expr, v Value, define bool) []*Path {
 				named, _ = pt.Elem().(*types.Named)
 			}
 			ref, ok1 := asTerm(base)
+			if vs, isVS := base.(ValStructRef); isVS { // x.f = v for a struct held by value
+				ref, ok1 = vs.Ref, true
+				named = vs.T
+				st, _ = vs.T.Underlying().(*types.Struct)
+			}
 			vt, ok2 := asTerm(v)
 			if st == nil || named == nil || !ok1 || !ok2 {
 				c.untranslatable(l.Pos(), "field assignment on unmodelled value")
@@ -1797,12 +1919,12 @@ func (fr *frame) execSwitch(p *Path, s *ast.SwitchStmt) []*Path {
 					cur = next
 				}
 				for _, m := range matched {
-					out = append(out, fr.execCaseBody(m, cc.Body)...)
+					out = append(out, fr.execClauses(m, s.Body.List, cc)...)
 				}
 			}
 			for _, q := range cur {
 				if dflt != nil {
-					out = append(out, fr.execCaseBody(q, dflt.Body)...)
+					out = append(out, fr.execClauses(q, s.Body.List, dflt)...)
 				} else {
 					out = append(out, q)
 				}
@@ -1812,13 +1934,36 @@ func (fr *frame) execSwitch(p *Path, s *ast.SwitchStmt) []*Path {
 	return out
 }
 
-func (fr *frame) execCaseBody(p *Path, body []ast.Stmt) []*Path {
-	for _, s := range body {
-		if b, ok := s.(*ast.BranchStmt); ok {
-			p.C.untranslatable(b.Pos(), "branch statement in switch")
+// execClauses runs the body of clause cc; a trailing fallthrough continues with the next clause's body; an unlabelled
+// break inside the switch ends the switch (the flag is consumed here).
+func (fr *frame) execClauses(p *Path, clauses []ast.Stmt, cc *ast.CaseClause) []*Path {
+	body := cc.Body
+	ft := false
+	if n := len(body); n > 0 {
+		if b, ok := body[n-1].(*ast.BranchStmt); ok && b.Tok == token.FALLTHROUGH {
+			ft = true
+			body = body[:n-1]
 		}
 	}
-	return fr.execBlock([]*Path{p}, body)
+	ps := fr.execBlock([]*Path{p}, body)
+	var out []*Path
+	for _, q := range ps {
+		if q.Brk {
+			q.Brk = false
+			out = append(out, q)
+			continue
+		}
+		if ft && !q.Cont {
+			for i, st := range clauses {
+				if st == ast.Stmt(cc) && i+1 < len(clauses) {
+					out = append(out, fr.execClauses(q, clauses, clauses[i+1].(*ast.CaseClause))...)
+				}
+			}
+			continue
+		}
+		out = append(out, q)
+	}
+	return out
 }
 
 // rangeOrdinal numbers range/for statements of a function in source order.
@@ -1847,16 +1992,15 @@ func (fr *frame) execRange(p *Path, s *ast.RangeStmt) []*Path {
 			out = append(out, fr.rangeTable(xv.P, s, x)...)
 		case *SliceVal:
 			out = append(out, fr.rangeSlice(xv.P, fr.rangeShape(s), x)...)
-		case *VariadicVal:
-			if x.Symbolic {
-				c.untranslatable(s.Pos(), "range over symbolic variadic parameter")
-				out = append(out, xv.P)
-				continue
-			}
+		case *ListVal:
 			ps := []*Path{xv.P}
 			for elIdx, el := range x.Elems {
 				var next []*Path
 				for _, q := range ps {
+					if q.Brk {
+						next = append(next, q)
+						continue
+					}
 					if s.Key != nil {
 						if id, ok := s.Key.(*ast.Ident); ok && id.Name != "_" {
 							if obj, ok := fr.info.Defs[id].(*types.Var); ok {
@@ -1871,11 +2015,52 @@ func (fr *frame) execRange(p *Path, s *ast.RangeStmt) []*Path {
 							}
 						}
 					}
-					next = append(next, fr.execStmt(q, s.Body)...)
+					if q.Brk {
+						next = append(next, q) // left the loop
+						continue
+					}
+					next = append(next, clearCont(fr.execStmt(q, s.Body))...)
 				}
 				ps = next
 			}
-			out = append(out, ps...)
+			out = append(out, clearBrk(ps)...)
+		case *VariadicVal:
+			if x.Symbolic {
+				c.untranslatable(s.Pos(), "range over symbolic variadic parameter")
+				out = append(out, xv.P)
+				continue
+			}
+			ps := []*Path{xv.P}
+			for elIdx, el := range x.Elems {
+				var next []*Path
+				for _, q := range ps {
+					if q.Brk {
+						next = append(next, q)
+						continue
+					}
+					if s.Key != nil {
+						if id, ok := s.Key.(*ast.Ident); ok && id.Name != "_" {
+							if obj, ok := fr.info.Defs[id].(*types.Var); ok {
+								q.Vars[obj] = mkInt(int64(elIdx))
+							}
+						}
+					}
+					if s.Value != nil {
+						if id, ok := s.Value.(*ast.Ident); ok && id.Name != "_" {
+							if obj, ok := fr.info.Defs[id].(*types.Var); ok {
+								q.Vars[obj] = el
+							}
+						}
+					}
+					if q.Brk {
+						next = append(next, q)
+						continue
+					}
+					next = append(next, clearCont(fr.execStmt(q, s.Body))...)
+				}
+				ps = next
+			}
+			out = append(out, clearBrk(ps)...)
 		default:
 			c.untranslatable(s.Pos(), fmt.Sprintf("range over %T", xv.V))
 			out = append(out, xv.P)
@@ -1889,8 +2074,7 @@ func (fr *frame) execRange(p *Path, s *ast.RangeStmt) []*Path {
 func (fr *frame) rangeTable(p *Path, s *ast.RangeStmt, tv *TableVal) []*Path {
 	c := p.C
 	if !bodyOnlyReturns(s.Body) {
-		c.untranslatable(s.Pos(), "range over map with a body that does more than conditional return")
-		return []*Path{p}
+		return fr.rangeTableGeneral(p, s, tv)
 	}
 	c.AxiomsUsed["map-order-free"] = true
 	sub := &frame{fi: fr.fi, info: tv.PkgInfo, rets: fr.rets, depth: fr.depth}
@@ -1960,6 +2144,8 @@ func bodyOnlyReturns(b *ast.BlockStmt) bool {
 	ok := true
 	ast.Inspect(b, func(n ast.Node) bool {
 		switch n.(type) {
+		case *ast.BranchStmt:
+			ok = false
 		case *ast.AssignStmt, *ast.IncDecStmt, *ast.ExprStmt, *ast.GoStmt, *ast.DeferStmt, *ast.SendStmt, *ast.RangeStmt, *ast.ForStmt, *ast.DeclStmt:
 			ok = false
 		}
@@ -1975,4 +2161,280 @@ func sortedObjs(m map[types.Object]Value) []types.Object {
 	}
 	sort.Slice(ks, func(i, j int) bool { return ks[i].Pos() < ks[j].Pos() })
 	return ks
+}
+
+// evalLocalLiteral: composite literals of local record types and of slices / arrays of them. Field values keep their
+// dynamic type when the field is of interface type (fmt.Stringer tables).
+func (fr *frame) evalLocalLiteral(p *Path, e *ast.CompositeLit, t types.Type) ([]PV, bool) {
+	var elemT types.Type
+	switch ut := t.Underlying().(type) {
+	case *types.Slice:
+		elemT = ut.Elem()
+	case *types.Array:
+		elemT = ut.Elem()
+	case *types.Struct:
+		return fr.evalRecordLiteral(p, e, ut)
+	default:
+		return nil, false
+	}
+	st, ok := elemT.Underlying().(*types.Struct)
+	if ok {
+		// a struct-typed element that is not written as a literal (a variable, a package-level value such as a language
+		// tag): the elements are plain values
+		for _, el := range e.Elts {
+			if _, isLit := el.(*ast.CompositeLit); !isLit {
+				ok = false
+			}
+		}
+	}
+	if !ok {
+		// [...]T{e1, e2, ...} of plain values (e.g. language tags): a concrete list
+		var es []ast.Expr
+		for _, el := range e.Elts {
+			if _, isKV := el.(*ast.KeyValueExpr); isKV {
+				return nil, false
+			}
+			es = append(es, el)
+		}
+		if len(es) == 0 {
+			return nil, false
+		}
+		var out []PV
+		for _, a := range fr.evalExprs(p, es) {
+			vals := a[1].([]Value)
+			allStr := true
+			var ts []Term
+			for _, v := range vals {
+				t, ok := asTerm(v)
+				if !ok || t.Sort != SStr {
+					allStr = false
+					break
+				}
+				ts = append(ts, t)
+			}
+			if allStr {
+				out = append(out, PV{a[0].(*Path), &SliceVal{Known: true, Elems: ts, Len: mkInt(int64(len(ts)))}})
+			} else {
+				out = append(out, PV{a[0].(*Path), &ListVal{Elems: vals}})
+			}
+		}
+		return out, true
+	}
+	acc := []PV{{p, &ListVal{}}}
+	for _, el := range e.Elts {
+		cl, ok := el.(*ast.CompositeLit)
+		if !ok {
+			return nil, false // keyed array elements, non-literal elements
+		}
+		var next []PV
+		for _, a := range acc {
+			rs, ok := fr.evalRecordLiteral(a.P, cl, st)
+			if !ok {
+				return nil, false
+			}
+			for _, r := range rs {
+				lv := a.V.(*ListVal)
+				next = append(next, PV{r.P, &ListVal{Elems: append(append([]Value(nil), lv.Elems...), r.V)}})
+			}
+		}
+		acc = next
+	}
+	return acc, true
+}
+
+func (fr *frame) evalRecordLiteral(p *Path, e *ast.CompositeLit, st *types.Struct) ([]PV, bool) {
+	type fe struct {
+		name string
+		ft   types.Type
+		e    ast.Expr
+	}
+	var fes []fe
+	for i, el := range e.Elts {
+		if kv, ok := el.(*ast.KeyValueExpr); ok {
+			id, ok := kv.Key.(*ast.Ident)
+			if !ok {
+				return nil, false
+			}
+			var ft types.Type
+			for j := 0; j < st.NumFields(); j++ {
+				if st.Field(j).Name() == id.Name {
+					ft = st.Field(j).Type()
+				}
+			}
+			if ft == nil {
+				return nil, false
+			}
+			fes = append(fes, fe{id.Name, ft, kv.Value})
+		} else {
+			if i >= st.NumFields() {
+				return nil, false
+			}
+			fes = append(fes, fe{st.Field(i).Name(), st.Field(i).Type(), el})
+		}
+	}
+	var es []ast.Expr
+	for _, f := range fes {
+		es = append(es, f.e)
+	}
+	var out []PV
+	for _, a := range fr.evalExprs(p, es) {
+		q := a[0].(*Path)
+		vs := a[1].([]Value)
+		rv := &RecVal{Fields: map[string]Value{}}
+		for j := 0; j < st.NumFields(); j++ {
+			rv.Fields[st.Field(j).Name()] = zeroValueOf(p.C, st.Field(j).Type())
+		}
+		for k, f := range fes {
+			v := vs[k]
+			if _, isIface := f.ft.Underlying().(*types.Interface); isIface {
+				if tv, ok := fr.info.Types[f.e]; ok && tv.Type != nil {
+					if _, dynIface := tv.Type.Underlying().(*types.Interface); !dynIface {
+						v = &IfaceVal{V: v, Dyn: tv.Type}
+					}
+				}
+			}
+			rv.Fields[f.name] = v
+		}
+		out = append(out, PV{q, rv})
+	}
+	return out, true
+}
+
+func clearCont(ps []*Path) []*Path {
+	for _, q := range ps {
+		q.Cont = false
+	}
+	return ps
+}
+
+func clearBrk(ps []*Path) []*Path {
+	for _, q := range ps {
+		q.Brk = false
+		q.Cont = false
+	}
+	return ps
+}
+
+// rangeTableGeneral: range over a package-level table whose body may assign, continue and break. Iteration order is
+// unspecified; the model covers bodies in which every entry either leaves the state untouched (and goes on) or leaves the
+// loop (return, or break after its effects): then the possible outcomes are "some entry left the loop with its effects"
+// (whichever entry comes first among those that do - every one of them is a possible outcome) or "no entry did".
+// A body that changes the state and goes on to the next entry is order-dependent in general and stays outside the subset.
+func (fr *frame) rangeTableGeneral(p *Path, s *ast.RangeStmt, tv *TableVal) []*Path {
+	c := p.C
+	c.AxiomsUsed["map-order-free"] = true
+	sub := &frame{fi: fr.fi, info: tv.PkgInfo, rets: fr.rets, depth: fr.depth}
+	sameState := func(a, b *Path) bool {
+		if len(a.Heap) != len(b.Heap) {
+			return false
+		}
+		for k, v := range a.Heap {
+			if w, ok := b.Heap[k]; !ok || w.S != v.S {
+				return false
+			}
+		}
+		for k, v := range b.Vars {
+			if k.Pos() >= s.Pos() && k.Pos() <= s.End() {
+				continue // declared inside the loop
+			}
+			w, ok := a.Vars[k]
+			if !ok {
+				return false
+			}
+			vt, ok1 := asTerm(v)
+			wt, ok2 := asTerm(w)
+			if ok1 != ok2 || (ok1 && vt.S != wt.S) {
+				return false
+			}
+		}
+		return true
+	}
+	var exits []*Path
+	fall := p
+	for _, te := range tv.Entries {
+		var kt Term
+		if te.Key != nil {
+			kt, _ = c.constTerm(te.Key, tv.MapT.Key())
+		} else if pvs := sub.eval(p.clone(), te.KeyExp); len(pvs) == 1 {
+			kt, _ = asTerm(pvs[0].V)
+		}
+		bind := func(pp *Path) bool {
+			if id, ok := s.Key.(*ast.Ident); ok && id.Name != "_" {
+				if obj, ok := fr.info.Defs[id].(*types.Var); ok {
+					pp.Vars[obj] = kt
+				}
+			}
+			if s.Value != nil {
+				if id, ok := s.Value.(*ast.Ident); ok && id.Name != "_" {
+					pvs := sub.eval(pp, te.ValExp)
+					if len(pvs) != 1 {
+						return false
+					}
+					if obj, ok := fr.info.Defs[id].(*types.Var); ok {
+						pp.Vars[obj] = pvs[0].V
+					}
+				}
+			}
+			return true
+		}
+		// 1. this entry as the first effectful one: from the pre-loop state
+		q := p.clone()
+		if !bind(q) {
+			c.untranslatable(s.Pos(), "table value in range")
+			return []*Path{p}
+		}
+		for _, r := range fr.execStmt(q, s.Body) { // returns are recorded through fr.rets
+			if r.Dead {
+				continue
+			}
+			if r.Brk {
+				r.Brk, r.Cont = false, false
+				exits = append(exits, r)
+				continue
+			}
+			r.Cont = false
+			if !sameState(p, r) {
+				c.untranslatable(s.Pos(), "range over a table with a body that changes state and goes on to the next entry (order-dependent)")
+				return []*Path{p}
+			}
+		}
+		// 2. the path on which no entry has an effect: this entry goes on without one
+		if fall == nil {
+			continue
+		}
+		f2 := fall.clone()
+		bind(f2)
+		var tmp []*Path
+		savedRets := fr.rets
+		fr.rets = &tmp
+		cont := fr.execStmt(f2, s.Body)
+		fr.rets = savedRets
+		var goOn []*Path
+		for _, r := range cont {
+			if !r.Dead && !r.Brk {
+				r.Cont = false
+				goOn = append(goOn, r)
+			}
+		}
+		switch len(goOn) {
+		case 0:
+			fall = nil
+		case 1:
+			fall = goOn[0]
+		default:
+			// several ways of going on, all without effect: their disjunction
+			base := len(fall.Conds)
+			var alts []Term
+			for _, r := range goOn {
+				alts = append(alts, tAnd(r.Conds[base:]...))
+			}
+			nf := fall.clone()
+			nf.assume(tOr(alts...))
+			fall = nf
+		}
+	}
+	if fall != nil && !fall.Dead {
+		exits = append(exits, fall)
+	}
+	return exits
 }
